@@ -320,3 +320,25 @@ Record ideal_chain {sigT : Type} (mac0 : bytes -> bytes -> sigT) (macS : sigT ->
   ic_macS_inj : forall s c s' c', macS s c = macS s' c' -> s = s' /\ c = c';
   ic_mac0_macS : forall k i s c, mac0 k i <> macS s c;
   ic_eqb_spec : forall a b, sig_eqb a b = true <-> a = b }.
+
+(* completeness of the caveat check for every order of the three required caveats *)
+Section Completeness.
+  Definition perms3 (a b c : bytes) : list (list bytes) :=
+    [[a; b; c]; [a; c; b]; [b; a; c]; [b; c; a]; [c; a; b]; [c; b; a]].
+
+  Lemma verify_caveats_complete_perm user now e cavs :
+    in_int64 e -> (now < e)%Z ->
+    In cavs (perms3 gen_caveat (user_prefix ++ user) (time_prefix ++ print_int e)) ->
+    verify_caveats cavs user now = true.
+  Proof.
+    intros He Hn Hin.
+    assert (Hv : verify_expiry (print_int e) now = true).
+    { rewrite verify_expiry_print by exact He. apply Z.ltb_lt. exact Hn. }
+    unfold perms3 in Hin. cbn [In] in Hin.
+    destruct Hin as [<-|[<-|[<-|[<-|[<-|[<-|[]]]]]]];
+      unfold verify_caveats; cbn [fold_left];
+      repeat (first [rewrite step_gen | rewrite step_user | rewrite step_time];
+              cbn [s_gen s_user s_time seen0]; rewrite ?bytes_eqb_refl, ?Hv);
+      reflexivity.
+  Qed.
+End Completeness.
